@@ -276,6 +276,15 @@ SRun(toks, s, fuel) ==
   ELSE IF fuel = 0 THEN [s EXCEPT !.err = "timeout"]
   ELSE SRun(toks, SStep(toks, s), fuel - 1)
 
+\* names are resolved when the source is compiled, also in code that is never executed: a program in which some
+\* word resolves to nothing (e.g. a nested definition mentioning a local of the enclosing one) is outside the grammar
+Structural == Openers \cup Closers \cup {"else", "of", "endof", "while", "break", "local", "var", "!"}
+IsName(toks, i) == i > 1 /\ W(toks, i - 1) \in {":", "local", "var", "!"}
+StaticOk(toks) == \A i \in 1..Len(toks) :
+   toks[i].t # "w" \/ W(toks, i) \in Structural \cup Builtins \/ IsName(toks, i)
+   \/ ResolveLocal(toks, i, W(toks, i)) # 0 \/ ResolveGlobal(toks, i, W(toks, i)) # 0
+SEval(toks, fuel) == IF StaticOk(toks) THEN SRun(toks, SBoot, fuel) ELSE [SBoot EXCEPT !.skip = TRUE]
+
 \* the values of all top-level variables, by name (latest declaration of each name)
 VarNames(toks) == {W(toks, j + 1) : j \in {k \in 1..(Len(toks) - 1) : W(toks, k) = "var"}}
 VarValue(toks, s, name) ==
